@@ -1056,7 +1056,11 @@ impl<Writer: Write> Mp4Writer<Writer> {
     fn compute_interleave_schedule(&self) -> Vec<(u64, TrackKind, usize)> {
         let mut schedule: Vec<(u64, TrackKind, usize)> = Vec::new();
         for (idx, sample) in self.video_samples.iter().enumerate() {
-            schedule.push((sample.pts, TrackKind::Video, idx));
+            // Video is scheduled by decode time: samples must be stored in sample (decode)
+            // order so that the chunk offsets, which are indexed by sample number, address
+            // the right bytes when presentation order differs (B-frames). For streams
+            // without reordering dts == pts, so the interleave is unchanged.
+            schedule.push((sample.dts, TrackKind::Video, idx));
         }
         for (idx, sample) in self.audio_samples.iter().enumerate() {
             schedule.push((sample.pts, TrackKind::Audio, idx));
